@@ -47,12 +47,61 @@ def plan(tier, seed):
     win = 40 if tier == "quick" else 400
     for k in range(1, 81, 4):
         jobs.append(("frontier", k, min(81, k + 4), win, 3000))
+    for prog in ("call", "call-exact", "call-pedigree"):
+        for hname in ("asm", "hand"):
+            jobs.append(("gfields", prog, hname, 10 ** 8))
+    for thr in ("0.2", "0.9"):
+        jobs.append(("gfields", "assemble", thr, 10 ** 8))
+    for P in range(1, 6):
+        jobs.append(("asarray", P, 5000))
     jobs.sort(key=lambda j: -j[-1])
     return jobs
 
 
 def run_job(job):
-    return {"map": job_map, "grid": job_grid, "frontier": job_frontier}[job[0]](job)
+    return {"map": job_map, "grid": job_grid, "frontier": job_frontier, "gfields": job_gfields, "asarray": job_asarray}[job[0]](job)
+
+
+def job_gfields(job):
+    """GP / GL as printed by the callers (vmc/cliflow.gfield_flow): length, placement of the called genotype, likelihood of every genotype at its index"""
+    from .. import cliflow
+
+    r = Result()
+    cliflow.gfield_flow(r, {"kind": "job", "job": job}, job[1], job[2])
+    return r
+
+
+def job_asarray(job):
+    """posterior_as_array / PosteriorGenotypeAllelesDistribution.as_array: every set of <= 2 sorted genotypes lands on its VCF positions"""
+    from mchap.calling.utils import posterior_as_array
+    from mchap.calling.classes import PosteriorGenotypeAllelesDistribution
+
+    _, P, _ = job
+    r = Result()
+    payload = {"kind": "job", "job": job}
+    for H in range(1, 6):
+        order = sorted(itertools.combinations_with_replacement(range(H), P), key=lambda g: tuple(reversed(g)))
+        N = len(order)
+        pos = {g: i for i, g in enumerate(order)}
+        pairs = [(g,) for g in order] + [(a, b) for a in order[:12] for b in order[-12:] if a != b]
+        for gs in pairs:
+            probs = np.array([0.625, 0.25][: len(gs)])
+            G = np.array(gs, np.int64).reshape(len(gs), P)
+            want = np.zeros(N)
+            for g, p in zip(gs, probs):
+                want[pos[g]] += p
+            for name, got in (("posterior_as_array", posterior_as_array(G, probs, N)), ("as_array", PosteriorGenotypeAllelesDistribution(G, probs).as_array(H))):
+                r.evaluations += 1
+                r.states += 1
+                if len(gs) > 1 or P > 1:
+                    r.nontrivial += 1
+                got = np.asarray(got, float)
+                if got.shape != (N,) or not np.array_equal(got, want):
+                    r.violation("asarray|%s|P=%d|H=%d" % (name, P, H), "genotypes %r with probabilities %r give %r, expected %r (VCF order over %d genotypes)" % (
+                        gs, probs.tolist(), got.tolist(), want.tolist(), N), payload)
+            r.outcome((P, H, gs))
+    r.sample({"asarray": "P=%d, H<=5, all single genotypes and 144 pairs" % P}, cap=1)
+    return r
 
 
 def job_map(job):
